@@ -224,7 +224,39 @@ func c16IBE(t *rapid.T, ev *evProp) {
 	if off := clearBlock(msg, ct.W); off >= 0 {
 		violationOrKnown(t, ev, key("cca-plaintext-in-clear"), "plaintext block at offset %d in the clear\n%s", off, ctx)
 	}
-	mut := rapid.SampledFrom([]string{"otherid", "U", "Uneg", "Vflip", "Wflip", "Vtrunc", "Wtrunc", "VWtrunc", "Wextend"}).Draw(t, "mut")
+	mut := rapid.SampledFrom([]string{"otherid", "U", "Uneg", "Vflip", "Wflip", "Vtrunc", "Wtrunc", "VWtrunc", "Wextend", "sweep", "sweep"}).Draw(t, "mut")
+	if mut == "sweep" {
+		// one flipped bit in EVERY byte position of V and of W in turn: every byte of the ciphertext is
+		// authenticated (a hash input assembled in a fixed-size buffer leaves a tail unauthenticated
+		// only for the longest messages)
+		bit := byte(1) << uint(rapid.IntRange(0, 7).Draw(t, "sweepbit"))
+		for _, part := range []string{"V", "W"} {
+			n := len(ct.V)
+			if part == "W" {
+				n = len(ct.W)
+			}
+			for pos := 0; pos < n; pos++ {
+				m := &ibe.Ciphertext{U: ct.U.Clone(), V: append([]byte(nil), ct.V...), W: append([]byte(nil), ct.W...)}
+				if part == "V" {
+					m.V[pos] ^= bit
+				} else {
+					m.W[pos] ^= bit
+				}
+				var mpt []byte
+				var merr error
+				if pn := safely(func() { mpt, merr = dec(s, priv, m) }); pn != "" {
+					violationOrKnown(t, ev, "C04/ibe/"+c.name+"/decrypt-panic", "DecryptCCA panicked on a flipped bit in %s[%d]: %s\n%s", part, pos, pn, ctx)
+					return
+				}
+				if merr == nil {
+					violationOrKnown(t, ev, key("cca-tamper-accepted"), "bit %#x of %s[%d] (of %d) flipped: decrypts without error to %x (original %x)\n%s", bit, part, pos, n, mpt, msg, ctx)
+					return
+				}
+			}
+		}
+		ev.Case(len(msg) > 0, ctx+" mut=sweep", "ibe:"+c.name, "ibe-cca-mut:sweep", "ibe-len:"+lenClass(len(msg)))
+		return
+	}
 	m := &ibe.Ciphertext{U: ct.U.Clone(), V: append([]byte(nil), ct.V...), W: append([]byte(nil), ct.W...)}
 	mpriv := priv
 	applies := true
